@@ -104,6 +104,7 @@ func (c *Ctx) storeOnFreshJob(cs CallSite) bool {
 
 func (c *Ctx) ruleCasTransitions(rule string) {
 	R := c.R
+	c.Rep.rule(rule, "E5 check-then-act", "compare-and-swap transitions of the job status, enumerated under interference, only move forward (to Processing never from Closed; to Closed only from Created/Queued/Finished) and their success is what callers act on", 6)
 	js := c.jobStatus()
 	var domain []string
 	for _, n := range []string{"Created", "Queued", "Processing", "Finished", "Closed"} {
